@@ -27,7 +27,7 @@ ASSUMPTIONS = ["stop() runs on the virtual clock: its 1 s polling sleeps are 1 m
                "after stop() returned"]
 TIMEOUT = {"quick": 900, "thorough": 3600}
 STATES = ["connecting", "await_cer", "await_cea", "ready", "ready_idle_soon", "waiting_dwa", "disconnecting"]
-REACTIONS = ["prompt", "late", "never", "close", "dpa_then_close"]
+REACTIONS = ["prompt", "late", "never", "close", "dpa_then_close", "handshake_during_stop"]
 
 
 def shards(tier, seed):
@@ -49,8 +49,8 @@ class Case:
         for i, (st, _) in enumerate(conns):
             out = st in ("connecting", "await_cea")
             peers.append({"name": f"peer{i + 1}.verif.example", "persistent": out, "reconnect_wait": 10 ** 6,
-                          "timers": {"idle_timeout": 5 if st == "waiting_dwa" else (3 if st == "ready_idle_soon"
-                                                                                    else 10 ** 6)}})
+                          "timers": {"idle_timeout": 5 if st == "waiting_dwa" else (
+                              3 if (st == "ready_idle_soon" or conns[i][1] == "handshake_during_stop") else 10 ** 6)}})
         if reconnect_due:
             peers.append({"name": "lost.verif.example", "persistent": True, "reconnect_wait": 2, "ip": "10.1.0.77"})
         peers.append({"name": "newcomer.verif.example"})
@@ -183,6 +183,22 @@ class Case:
                         if not self.sp[i].node_sock.closed and h.now - t0 < spec["wait_timeout"] - 1:
                             self.witness("shutdown.connection_not_closed_after_dpa", {"conn": i, "iterations": it - j})
                         del dpa_at[i]
+                if it == 2:
+                    # a connection that was still in its capabilities exchange completes it during the shutdown
+                    for i, sp in enumerate(self.sp):
+                        if sp is None or sp.closed or spec["conns"][i][1] != "handshake_during_stop":
+                            continue
+                        st = spec["conns"][i][0]
+                        name = f"peer{i + 1}.verif.example"
+                        if st == "await_cer":
+                            sp.send(M.cer(name, self.REALM, auth=[4], hbh=1, e2e=500 + i))
+                            self.run.cov["handshakes_completed_during_stop"] += 1
+                        elif st == "await_cea":
+                            sp.drain()
+                            cer = [f for f in sp.frames if f.h.code == 257 and f.is_request]
+                            if cer:
+                                sp.send(M.cea(name, self.REALM, auth=[4], hbh=cer[-1].h.hbh, e2e=cer[-1].h.e2e))
+                                self.run.cov["handshakes_completed_during_stop"] += 1
                 if spec["newcomer"] and newcomer is None and it == 2 and h.listeners and not h.listeners[0].closed:
                     newcomer = h.inbound(ip="10.1.0.88", port=58888)
                     newcomer.send(M.cer("newcomer.verif.example", self.REALM, auth=[4], hbh=1, e2e=99))
@@ -216,7 +232,8 @@ class Case:
                 else:
                     if ready_at_stop.get(i) and i not in dpr_seen and not sp.closed:
                         self.witness(f"shutdown.ready_peer_without_dpr.{st}", {"conn": i})
-                    if not ready_at_stop.get(i) and i in dpr_seen:
+                    if not ready_at_stop.get(i) and i in dpr_seen and react != "handshake_during_stop":
+                        # (a handshake completing while stop() walks the table may or may not get a DPR)
                         self.witness(f"shutdown.dpr_to_not_ready_peer.{st}", {"conn": i})
                     if i in dpr_seen:
                         cause = dpr_seen[i][1].first(273)
@@ -283,7 +300,7 @@ class Run:
         self.hashes = set()
         self.samples = []
         self.cov = {"states": {}, "reactions": {}, "forced": 0, "graceful": 0, "newcomers": 0, "stalls": 0,
-                    "connections_at_stop": 0, "reconnect_due_cases": 0, "by_nconn": {}}
+                    "connections_at_stop": 0, "reconnect_due_cases": 0, "by_nconn": {}, "handshakes_completed_during_stop": 0}
 
     def witness(self, key, detail, replay=None):
         if len(self.wit) < 200:
@@ -330,6 +347,9 @@ def run_shard(spec):
         for re in REACTIONS:
             for force in (False, True):
                 cases.append(([(st, re)], re == "never", st == "ready", force, 6))
+    for st in ("await_cer", "await_cea"):
+        cases.append(([(st, "handshake_during_stop")], False, False, False, 9))
+        cases.append(([(st, "handshake_during_stop"), ("ready", "never")], False, False, False, 9))
     for a in STATES:
         for b in STATES:
             cases.append(([(a, "prompt"), (b, "never")], True, False, False, 4))
